@@ -2,11 +2,13 @@ SPECIFICATION Spec
 CONSTANTS
   Kind = "stress"
   H = 31
-  Rates = {0, 1, 2, 3, 4, 5, 8, 16}
+  Rates = {0, 1, 2, 4, 16}
   Insts = {"A", "B"}
   Tables = {"small", "large", "extreme"}
-  ExtremeFrom = 8
+  ExtremeFrom = 16
+  Profiles = {"default", "inverted", "equalAlways", "zero", "monitor"}
+  Rejectable = {"inverted"}
 INVARIANTS TypeOK BoundIsThreshold KeepIsThreshold RateLE1KeepsAll InstancesAgree NestedAnswers
-PROPERTIES AskingIsPure ConfigureIsLocal
+PROPERTIES AskingIsPure ConfigureIsLocal ConfigureTakesEffect
 ACTION_CONSTRAINT Dump
 VIEW View
